@@ -59,6 +59,7 @@ var c14Hostile = []string{
 	`func named(a, b) {if a > b {return a - b}; a * b + 1.0}`,
 	`lam = (x, y) => x + y * 2.0; lam1 = x => x || false; lam0 = () => 1.0; lamr = () => {return 3}`,
 	`lamm = x => {{"a": 1, "b": 2}[x]}; lamd = (a, b) => {{"p": a}.p + b}; lamm2 = () => {{"a": 1}}; lamn = a => (b => a + b); lams = x => {{"a": [1, 2, 3]}.a[0:x]}; lamq = x => {{1: 2}[1] == x}`,
+	`func ql(x) {"\"" + x + "\"\n"}; qs = () => "a\"b\nc"; qt = x => "it's \"" + x + "\"\ttab"; qn = () => "line1\nline2"; qb = () => "back` + "`" + `tick\"q\"\n"`,
 	`func fal(a) {a + 1}; gal = fal; hal = gal`,
 	`bigs = "x" * 70000; zlast = 7`,
 	`gx = 1; func zz_setgx() {gx = 5}`,
